@@ -34,19 +34,19 @@ var EnumSymbols = []string{"A", "B", "c", "foo", "bar", "a b", "", "null", "æ—¥æ
 
 // TypeOpts selects which constructors the type generator may use.
 type TypeOpts struct {
-	NoNamed     bool
-	NoUnion     bool
-	NoEnum      bool
-	NoError     bool
-	NoMap       bool
-	NoSet       bool
-	NoTypeType  bool // do not produce type `type`
-	NoNullType  bool // do not produce type `null`
-	PlainNames  bool // only identifier-like field / type names
-	FewFields   bool
-	Prims       []zed.Type // if set, restrict primitives
-	TypeNames   []string
-	FieldNames  []string
+	NoNamed    bool
+	NoUnion    bool
+	NoEnum     bool
+	NoError    bool
+	NoMap      bool
+	NoSet      bool
+	NoTypeType bool // do not produce type `type`
+	NoNullType bool // do not produce type `null`
+	PlainNames bool // only identifier-like field / type names
+	FewFields  bool
+	Prims      []zed.Type // if set, restrict primitives
+	TypeNames  []string
+	FieldNames []string
 }
 
 type TypeGen struct {
